@@ -2,30 +2,62 @@ def sig(fl):
     """classify a rejected segment (diagnostic label + known-finding key only; the verdict was TLC's)"""
     seg = fl["segment"]
     r = seg[0]
+    ev = fl["event"]
+    op = ev.get("op")
     cs = r.get("containers", [])
     declares = [c for c in cs if not (c["req"] == -1 and c["lim"] == -1 and c["mem"] == -1)]
     kind = "be" if r.get("mark") == "label" else "not-be"
     mixed = "mixed-declaring" if (declares and len(declares) < len(cs)) else "all-declaring" if declares else "none-declaring"
-    pod = fl["event"].get("obs", {}).get("pod", {})
+    pod = ev.get("obs", {}).get("pod", {})
+    mode = ev.get("mode") or r.get("mode")
 
     def lim(k):
         v = pod.get(k, {})
         return "unset" if not v.get("set") else "unlimited" if v.get("v") == -1 else "limited"
-    return "op=%s mark=%s(%s) %s pod-quota=%s pod-mem=%s mode=%s" % (
-        fl["event"].get("op"), r.get("mark"), kind, mixed, lim("quota"), lim("mem"), r.get("mode"))
+    if op == "hook":
+        base = "op=hook mark=%s(%s) %s pod-quota=%s pod-mem=%s mode=%s" % (r.get("mark"), kind, mixed, lim("quota"), lim("mem"), mode)
+        if r.get("mark") == "label" and mixed == "mixed-declaring":
+            # the class of the registered known finding (pod-level values of a pod with a non-declaring container), whose
+            # key admits no suffix. Container-level rejections of such pods are located at their own `conts` event.
+            return base
+    elif op == "conts":
+        vals = ev.get("obs", {}).get("containers", {})
+        inj = sum(1 for c in cs if vals.get(c["name"], {}).get("quota", {}).get("set"))
+        base = "op=conts mark=%s(%s) %s injected=%s mode=%s" % (
+            r.get("mark"), kind, mixed, "none" if inj == 0 else "all" if inj == len(cs) else "some", mode)
+    else:
+        base = "op=%s mark=%s(%s) %s" % (op, r.get("mark"), kind, mixed)
+    # context: the annotation the pod carried before admission, the deliveries that preceded the rejected event
+    ctx = ""
+    pre = (r.get("pre") or {}).get("kind", "none")
+    if pre != "none":
+        ctx += " pre=" + pre
+    before = [e for e in seg[1:fl["fail_index"]] if e.get("op") in ("node", "slo")]
+    if before:
+        d = before[-1]
+        if d["op"] == "node":
+            earlier = [e.get("kind") for e in before[:-1] if e.get("op") == "node"]
+            was = earlier[-1] if earlier else ("valid" if r.get("rnum", 0) > 0 else "none")
+            ctx += " after=node:%s(was:%s)" % (d.get("kind"), was)
+        else:
+            ctx += " after=slo:%s/%s" % (d.get("policy") or "absent", "on" if d.get("enable") else "off")
+    return base + ctx
 
 
 CONF = {
     "id": "C14", "family": "BatchCgroup",
     "mc": [
+        {"module": "MC_BatchConfig", "cfg": {"quick": "MC_config.cfg", "thorough": "MC_config_thorough.cfg"}, "timeout": 600},
         {"module": "MC_BatchCgroup", "cfg": {"quick": "MC_quick.cfg", "thorough": "MC_quick.cfg"}, "timeout": 600},
         {"module": "MC_BatchCgroup", "cfg": {"quick": None, "thorough": "MC_thorough.cfg"}, "timeout": 1500},
     ],
     "go": [{"pkg": "pkg/koordlet/runtimehooks/hooks/batchresource", "test": "TestVerifC14", "pfm": True}],
     "trace": {"module": "BatchCgroupTrace", "cfg": "Trace.cfg"},
     "signature": sig,
-    "rule": "one segment per pod (reset = container list + marking + cfs/ratio configuration + request mode, "
-            "hook = Response.Resources of the pod and of every container); distinct by content; non-trivial = has the hook event",
+    "rule": "one segment per pod and agent instance (reset = container list + marking + annotation carried before admission + "
+            "initial cfs/ratio configuration; admit = real mutating webhook; node / slo = objects delivered to the real rule "
+            "parsers; conts / hook = Response.Resources of every container / of the pod in one request mode); distinct by "
+            "content; non-trivial = at least the admit event",
     "assumptions": [
         "best-effort = label koordinator.sh/qosClass=BE, the only marking the API defines (GetQoSClassByAttrs receives the "
         "annotations but does not consult them; the validating webhook demands the label for batch resources): a pod carrying "
